@@ -3,7 +3,7 @@
 Require Extraction.
 Require Import ExtrOcamlBasic.
 From Coq Require Import NArith List.
-From Mdns Require Import Res Bytes Utf8 Txt Rec Wire Intf Responder ResponderSpec.
+From Mdns Require Import Res Bytes Utf8 Txt Rec Wire Intf IntfCache Responder ResponderSpec IntfDaemon.
 Extraction Language OCaml.
 Extraction "model.ml"
   Txt.encode_txt Bytes.lower Wire.decode
@@ -13,4 +13,5 @@ Extraction "model.ml"
   Responder.family_enabled
   ResponderSpec.spec ResponderSpec.chk_C06 ResponderSpec.explained_by ResponderSpec.text_quirks
   ResponderSpec.code_quirks ResponderSpec.wf_input ResponderSpec.clean ResponderSpec.opt_packet_eqb
+  IntfDaemon.initial_state IntfDaemon.iterate IntfDaemon.run
   N.eqb N.add N.mul N.land N.div N.modulo.
